@@ -104,7 +104,7 @@ def check_C06(tier, seed):
     res.behaviours = [b for b in res.behaviours if b["parses"][0]["exp"]["status"] == "fail"]
     parsecheck.replay(v, exe, res, aspects={"diag", "diagpos"}, seed=seed, renderings=("mix0", "mix1", "mix2"), tag="C06two")
     # scanner level: the line counter through every start condition (comments with stars, multi-line strings, continuations)
-    run_lex(v, exe, cfgs(tier, ["lex_comment_quick.cfg", "lex_lines_quick.cfg"], ["lex_comment_thorough.cfg"]), seed, "C06")
+    run_lex(v, exe, cfgs(tier, ["lex_comment_quick.cfg", "lex_lines_quick.cfg", "lex_env_quick.cfg"], ["lex_comment_thorough.cfg"]), seed, "C06")
     res = run_tlc("MC_Inc.tla", os.path.join("mc", "inc_quick.cfg")) if os.path.exists(os.path.join(SPEC, "MC_Inc.tla")) else None
     if res is not None:
         from . import inccheck
